@@ -121,6 +121,7 @@ func checkGeneratedFile(name string, content []byte, b *Batch) []ev.Violation {
 		}
 	}
 	_ = nInit // several goverter:variables blocks sharing one output file legitimately yield several init functions
+	out = append(out, deadHelpers(name, f, b)...)
 	return out
 }
 
@@ -145,4 +146,95 @@ func keysOf(m map[string]bool) []string {
 	}
 	sort.Strings(k)
 	return k
+}
+
+// deadHelpers: every emitted function or method must be reachable from the declared API (the interface methods of
+// the converter structs, the declared functions of output:format function, the functions assigned in init()). A
+// helper nobody calls is state-free but is no longer "what was declared", and it can keep imports alive.
+func deadHelpers(name string, f *ast.File, b *Batch) []ev.Violation {
+	type key struct{ recv, name string }
+	api := map[key]bool{}
+	tracked := false
+	for _, c := range b.Cases {
+		if of, ok := c.Meta["out_file"].(string); ok && of != name {
+			continue
+		}
+		ms := metaStrings(c.Meta["api_methods"])
+		if len(ms) == 0 {
+			continue
+		}
+		tracked = true
+		for _, m := range ms {
+			api[key{c.ID + "Impl", m}] = true // struct format
+			api[key{"", m}] = true            // function format
+		}
+	}
+	if !tracked {
+		return nil
+	}
+	decls := map[key]*ast.FuncDecl{}
+	for _, d := range f.Decls {
+		fd, ok := d.(*ast.FuncDecl)
+		if !ok {
+			continue
+		}
+		k := key{"", fd.Name.Name}
+		if fd.Recv != nil && len(fd.Recv.List) == 1 {
+			t := fd.Recv.List[0].Type
+			if st, ok := t.(*ast.StarExpr); ok {
+				t = st.X
+			}
+			if id, ok := t.(*ast.Ident); ok {
+				k.recv = id.Name
+			}
+		}
+		decls[k] = fd
+	}
+	reach := map[key]bool{}
+	var visit func(k key)
+	visit = func(k key) {
+		if reach[k] {
+			return
+		}
+		fd, ok := decls[k]
+		if !ok {
+			return
+		}
+		reach[k] = true
+		ast.Inspect(fd, func(n ast.Node) bool {
+			call, ok := n.(*ast.CallExpr)
+			if !ok {
+				return true
+			}
+			switch fn := call.Fun.(type) {
+			case *ast.Ident:
+				visit(key{"", fn.Name})
+			case *ast.SelectorExpr:
+				if id, ok := fn.X.(*ast.Ident); ok && id.Name == "c" {
+					visit(key{k.recv, fn.Sel.Name})
+				}
+			}
+			return true
+		})
+	}
+	for k := range decls {
+		if api[k] || k.name == "init" {
+			visit(k)
+		}
+	}
+	// function literals assigned in init (goverter:variables) call package-level helpers: covered by visiting init
+	var out []ev.Violation
+	for k := range decls {
+		if !reach[k] {
+			who := k.name
+			if k.recv != "" {
+				who = k.recv + "." + k.name
+			}
+			out = append(out, ev.Violation{Property: "C18", Site: "dead-helper", Symptom: "emitted-function-never-used",
+				Detail: fmt.Sprintf("%s: %s is emitted but not reachable from any declared converter method/function", name, who),
+				Case:   map[string]any{"kind": "generated-file", "file": name, "function": who}})
+			break
+		}
+	}
+	return out
 }
